@@ -36,6 +36,10 @@ pub fn check(case: &SemCase, st: &mut Stats, ex: &Excl) -> Result<(), String> {
         }
         Outcome::Panic(p) => {
             st.count(&format!("panic(routed to C16):{}", p.sig));
+            if std::env::var("VERIF_TRIAGE_PANICS").is_ok() {
+                // triage aid (never set by a registered command): shrink a panicking program as an AST
+                return Err(format!("C13-triage-panic-{:08x}: {}", pbt::hash_str(&p.sig) as u32, p.sig));
+            }
             return Ok(());
         }
     };
@@ -132,5 +136,19 @@ pub fn replay_case(v: &serde_json::Value) -> Option<(bool, String)> {
     match check(&case, &mut st, &Excl::default()) {
         Ok(()) => Some((false, format!("{:?}", st.counters))),
         Err(r) => Some((true, r)),
+    }
+}
+
+/// replay of a hand-written source text (kind "c13-text"): compile at the given level, assemble
+pub fn replay_text(v: &serde_json::Value) -> Option<(bool, String)> {
+    let src = v.get("source")?.as_str()?;
+    let opt = v.get("opt").and_then(|o| o.as_u64()).unwrap_or(1) as u8;
+    match cc::compile_str(src, &cc::Opts::o(opt)) {
+        Outcome::Ok(cap) => match exec::link(&cap, "4K", 0, Which::InUse) {
+            Err(LinkError::Asm(e)) => Some((true, format!("C13: the assembler rejects the emitted code: {}:{}: `{}`: {:?}", e.unit, e.line_no, e.text.trim(), e.kind))),
+            _ => Some((false, "assembles".into())),
+        },
+        Outcome::Err(e) => Some((false, format!("rejected: {}", e.msg()))),
+        Outcome::Panic(p) => Some((true, format!("C13: panic instead of assembly: {}", p.sig))),
     }
 }
